@@ -77,6 +77,10 @@ type tol struct {
 
 var exactText = map[string]bool{"pre": true, "textarea": true, "script": true, "style": true}
 
+// a line ending inside a code span reads as one space (CommonMark 6.1; goldmark leaves the CR of a
+// CR LF in place, which is white space next to that space)
+var codeNL = regexp.MustCompile(`[ \t]*\n[ \t\n]*`)
+
 var alignRe = regexp.MustCompile(`^\s*text-align:\s*(left|center|right)\s*;?\s*$`)
 
 // escURL applies goldmark's percent-escaping (and nothing else: no backslash-unescaping, no
@@ -144,6 +148,7 @@ const (
 	mCollapse = iota // whitespace runs collapsed, ends of runs trimmed, empty runs dropped
 	mExact           // pre, textarea, script, style: byte-exact
 	mCode            // code span: exact except that a line ending counts as a space (CommonMark 6.1)
+	mScript          // script, style: exact after decoding character references
 )
 
 // norm reduces a parsed sibling list to hx.N form.
@@ -161,10 +166,15 @@ func norm(nodes []*html.Node, mode int, t tol) []*hx.N {
 		pending.Reset()
 		has = false
 		switch mode {
+		case mScript:
+			// Markdown text that ends up inside a raw <script>/<style> element of the source is not
+			// entity-decoded by the HTML parser; whether such text is written as > or &gt; is a
+			// spelling the statement does not fix.
+			s = html.UnescapeString(s)
 		case mCollapse:
 			s = strings.Join(strings.Fields(s), " ")
 		case mCode:
-			s = strings.ReplaceAll(s, "\n", " ")
+			s = codeNL.ReplaceAllString(s, " ")
 		}
 		if s == "" {
 			return
@@ -191,6 +201,8 @@ func norm(nodes []*html.Node, mode int, t tol) []*hx.N {
 			kids := kidsOf(n)
 			sub := mode
 			switch {
+			case n.Data == "script" || n.Data == "style":
+				sub = mScript
 			case exactText[n.Data]:
 				sub = mExact
 			case n.Data == "code" && mode == mCollapse:
@@ -275,23 +287,17 @@ func compare(ref, got string, t tol) (diff string, tolerated []string) {
 	if err != nil {
 		return "vuego output does not parse: " + err.Error(), nil
 	}
-	return compareNodes(rn, gn, t, nil)
+	return compareNodes(rn, gn, t)
 }
 
-func compareNodes(rn, gn []*html.Node, t tol, post func([]*hx.N)) (string, []string) {
+func compareNodes(rn, gn []*html.Node, t tol) (string, []string) {
 	strictR, strictG := norm(rn, mCollapse, tol{}), norm(gn, mCollapse, tol{})
-	if post != nil {
-		post(strictR)
-	}
 	var tolerated []string
 	if d := hx.Diff(strictR, strictG, hx.Options{}); d != "" {
 		if !t.prePadding {
 			return "structure (reference vs vuego): " + d, nil
 		}
 		r2, g2 := norm(rn, mCollapse, t), norm(gn, mCollapse, t)
-		if post != nil {
-			post(r2)
-		}
 		if d2 := hx.Diff(r2, g2, hx.Options{}); d2 != "" {
 			return "structure (reference vs vuego): " + d2, nil
 		}
@@ -322,7 +328,8 @@ func clip(s string, n int) string {
 
 type facts struct {
 	classes map[string]bool
-	aKinds  []string // "link" / "autolink" in document order (children of images skipped)
+	regions map[string]bool // ids of the known-finding regions the document touches
+	aKinds  []string        // "link" / "autolink" in document order (children of images skipped)
 }
 
 var (
@@ -333,9 +340,11 @@ var (
 )
 
 func analyse(src []byte) facts {
-	f := facts{classes: map[string]bool{}}
+	f := facts{classes: map[string]bool{}, regions: map[string]bool{}}
+	region := func(id string) { f.regions[id] = true }
 	doc := refParser().Parse(text.NewReader(src))
 	set := func(s string) { f.classes[s] = true }
+	// where: "text" (inline text), "code" (code span / block), "attr" (destination, title, alt, info)
 	textual := func(seg []byte, where string) {
 		if bytes.Contains(seg, []byte("{{")) {
 			set("mustache-in-" + where)
@@ -348,16 +357,35 @@ func analyse(src []byte) facts {
 		}
 		rest := seg
 		if entityRe.Match(seg) {
-			set("entity")
+			set("entity-in-" + where)
 			rest = entityRe.ReplaceAll(seg, nil)
+			if where == "attr" {
+				region(fEscapes)
+			}
 		}
 		if escapeRe.Match(seg) {
-			set("backslash-escape")
+			set("backslash-escape-in-" + where)
 			rest = escapeRe.ReplaceAll(rest, nil)
+			region(fEscapes)
 		}
 		if literalRe.Match(rest) {
-			set("literal-lt-amp")
+			set("literal-lt-amp-in-" + where)
+			if where == "text" {
+				region(fTextUnescaped)
+			}
 		}
+	}
+	var plain func(n ast.Node) []byte
+	plain = func(n ast.Node) []byte {
+		var b []byte
+		for c := n.FirstChild(); c != nil; c = c.NextSibling() {
+			if t, ok := c.(*ast.Text); ok {
+				b = append(b, t.Segment.Value(src)...)
+			} else {
+				b = append(b, plain(c)...)
+			}
+		}
+		return b
 	}
 	hasAncestor := func(n ast.Node, k ast.NodeKind) bool {
 		for p := n.Parent(); p != nil; p = p.Parent() {
@@ -395,6 +423,9 @@ func analyse(src []byte) facts {
 			if len(v.Language(src)) > 0 {
 				set("code-fenced-info")
 			}
+			if v.Info != nil {
+				textual(v.Info.Segment.Value(src), "attr")
+			}
 			for i := 0; i < v.Lines().Len(); i++ {
 				s := v.Lines().At(i)
 				textual(s.Value(src), "code")
@@ -418,6 +449,7 @@ func analyse(src []byte) facts {
 				}
 				if v.Start == 0 {
 					set("list-ordered-start-0")
+					region(fStartZero)
 				}
 			} else {
 				set("list-bullet")
@@ -434,6 +466,11 @@ func analyse(src []byte) facts {
 			set(fmt.Sprintf("html-block-type%d", int(v.HTMLBlockType)))
 			if v.HasClosure() {
 				set("html-block-closure-line")
+				region(fHTMLClosure)
+			}
+			if p := n.PreviousSibling(); p != nil && p.Kind() == ast.KindTextBlock {
+				set("html-block-after-tight-item-text")
+				region(fTightSeparator)
 			}
 		case *east.Table:
 			set("table")
@@ -455,6 +492,7 @@ func analyse(src []byte) facts {
 			}
 			if v.HardLineBreak() {
 				set("hard-break")
+				region(fHardBreak)
 			} else if v.SoftLineBreak() {
 				set("soft-break")
 			}
@@ -475,12 +513,37 @@ func analyse(src []byte) facts {
 			if len(v.Title) > 0 {
 				set("link-title")
 			}
-			textual(v.Destination, "text")
-			textual(v.Title, "text")
+			textual(v.Destination, "attr")
+			textual(v.Title, "attr")
+			if len(v.Destination) == 0 {
+				set("empty-destination")
+				region(fEmptyDest)
+			}
+			if t := plain(v); len(t) > 0 && (t[0] == ' ' || t[0] == '\n' || t[len(t)-1] == ' ' || t[len(t)-1] == '\n') {
+				// approximation: the first/last text of the link content is white space
+				if ft, ok := v.FirstChild().(*ast.Text); ok && len(ft.Segment.Value(src)) > 0 && (ft.Segment.Value(src)[0] == ' ' || ft.Segment.Value(src)[0] == '\n') {
+					set("link-text-padded")
+					region(fLinkTextTrim)
+				}
+				if lt, ok := v.LastChild().(*ast.Text); ok && len(lt.Segment.Value(src)) > 0 {
+					b := lt.Segment.Value(src)
+					if b[len(b)-1] == ' ' || lt.SoftLineBreak() {
+						set("link-text-padded")
+						region(fLinkTextTrim)
+					}
+				}
+			}
 		case *ast.Image:
 			set("image")
 			if len(v.Title) > 0 {
 				set("image-title")
+			}
+			textual(v.Destination, "attr")
+			textual(v.Title, "attr")
+			textual(plain(v), "attr")
+			if len(v.Destination) == 0 {
+				set("empty-destination")
+				region(fEmptyDest)
 			}
 			return ast.WalkSkipChildren, nil
 		case *ast.AutoLink:
@@ -504,8 +567,8 @@ func analyse(src []byte) facts {
 
 // ---- override marking ---------------------------------------------------------------------
 
-// tagTemplate says which default template produces an element of the reference tree.
-func tagTemplate(tag, parent string) string {
+// tagTemplate says which default template produces a start tag written by the reference renderer.
+func tagTemplate(tag string) string {
 	switch tag {
 	case "p":
 		return "paragraph"
@@ -514,10 +577,7 @@ func tagTemplate(tag, parent string) string {
 	case "pre":
 		return "code_block"
 	case "code":
-		if parent == "pre" {
-			return ""
-		}
-		return "code_span"
+		return "code_span" // unless it directly follows <pre>, see markRef
 	case "em", "strong":
 		return "emphasis"
 	case "br":
@@ -542,43 +602,49 @@ func tagTemplate(tag, parent string) string {
 	return ""
 }
 
-// mark adds data-ov="<template>" to every element of the (reference) tree that is produced by a
-// template in set. Elements that come from raw HTML of the source carry data-raw (generator
-// convention) and are left alone. It returns false when the <a> elements cannot be attributed.
-func mark(tree []*hx.N, set map[string]bool, aKinds []string) bool {
+var startTagRe = regexp.MustCompile(`<(p|h[1-6]|pre|code|em|strong|br|img|ul|ol|li|blockquote|del|table|input|hr|a)((?:\s[^<>]*)?)>`)
+
+// markRef inserts data-ov="<template>" into every start tag of the reference output that the
+// reference renderer wrote for a node whose template is in set. It works on the text of the
+// reference output (goldmark escapes < in text and attribute values, so a start tag in its output is
+// either its own or raw HTML of the source; raw HTML with one of these tag names carries data-raw by
+// generator convention and is left alone). Marking the text rather than the parsed tree keeps the
+// expectation right when the HTML parser restructures odd raw HTML. ok is false when the <a> tags
+// cannot be attributed to link / autolink nodes.
+func markRef(ref string, set map[string]bool, aKinds []string) (string, bool) {
 	ai := 0
 	ok := true
-	var walk func(l []*hx.N, parent string)
-	walk = func(l []*hx.N, parent string) {
-		for _, n := range l {
-			if n.Tag == "" {
-				continue
-			}
-			_, raw := n.Attrs["data-raw"]
-			_, wrapper := n.Attrs["data-ov"] // the raw_html wrapper written by the reference renderer
-			if !raw && !wrapper {
-				name := tagTemplate(n.Tag, parent)
-				if n.Tag == "a" {
-					if ai < len(aKinds) {
-						name = aKinds[ai]
-						ai++
-					} else {
-						ok = false
-					}
-				}
-				if name != "" && set[name] {
-					if n.Attrs == nil {
-						n.Attrs = map[string]string{}
-					}
-					n.Attrs["data-ov"] = name
-				}
-			}
-			walk(n.Kids, n.Tag)
+	var sb strings.Builder
+	last := 0
+	for _, m := range startTagRe.FindAllStringSubmatchIndex(ref, -1) {
+		tag, attrs := ref[m[2]:m[3]], ref[m[4]:m[5]]
+		if strings.Contains(attrs, "data-raw") {
+			continue
 		}
+		name := tagTemplate(tag)
+		switch tag {
+		case "a":
+			if ai < len(aKinds) {
+				name = aKinds[ai]
+			} else {
+				ok = false
+			}
+			ai++
+		case "code":
+			if strings.HasSuffix(ref[:m[0]], "<pre>") {
+				name = "" // the <code> of a code block belongs to the code_block template
+			}
+		}
+		if name == "" || !set[name] {
+			continue
+		}
+		sb.WriteString(ref[last:m[3]])
+		sb.WriteString(` data-ov="` + name + `"`)
+		last = m[3]
 	}
-	walk(tree, "")
+	sb.WriteString(ref[last:])
 	if ai != len(aKinds) {
 		ok = false
 	}
-	return ok
+	return sb.String(), ok
 }
